@@ -7,7 +7,7 @@ from typing import Dict, List, Optional, Tuple
 from ..model import AnalysisError, FuncInfo, Program, dotted, own_nodes, unparse
 from ..symex import resolve as _resolve
 from ..symex import atoms_of, facts_for, phi_alternatives, resolve, always_leaves
-from .common import U, const_value, is_self_attr, kwarg, np_call, returns_of, short
+from .common import unitem, U, const_value, is_self_attr, kwarg, np_call, returns_of, short
 
 SC = "pygradflow.scale.Scaling"
 
@@ -104,6 +104,7 @@ def dtype_of(fi: FuncInfo, ff, stmt, e: ast.AST, depth: int = 0) -> str:
 
 def is_frexp_weight(e: ast.AST, arg_text: Optional[str] = None) -> Optional[str]:
     """if e is `1 - np.frexp(X)[1]` return the text of X."""
+    e = unitem(e)
     if isinstance(e, ast.BinOp) and isinstance(e.op, ast.Sub) and const_value(e.left) == 1 and isinstance(e.right, ast.Subscript) \
             and const_value(e.right.slice) == 1 and np_call(e.right.value, "frexp") and len(e.right.value.args) == 1:
         return U(e.right.value.args[0])
@@ -182,6 +183,13 @@ def grad_jac(prog: Program, rep, sc) -> None:
         st = [s for s in ff.order if isinstance(s.stmt, ast.Assign) and any(U(t) == U(raw) for t in s.stmt.targets)] if raw is not None else []
         if st and isinstance(st[-1].stmt.value, ast.Call) and st[-1].stmt.value.args and isinstance(st[-1].stmt.value.args[0], ast.Name):
             acc_name = st[-1].stmt.value.args[0].id
+    # follow plain aliases (`max_values = tmp`) back to the array that is accumulated into
+    for _ in range(4):
+        al = [s for s in ff.order if isinstance(s.stmt, ast.Assign) and len(s.stmt.targets) == 1 and U(s.stmt.targets[0]) == acc_name and not s.loops] if acc_name else []
+        if len(al) == 1 and isinstance(al[0].stmt.value, ast.Name):
+            acc_name = al[0].stmt.value.id
+        else:
+            break
     rep.check(ok_c and acc_name is not None, "gradjac-cons-weights", m.qualname, "cons_weights", "cons_weights = 1 - e(row maximum of the column-prescaled Jacobian)", m.loc(r))
     if acc_name is None:
         return
@@ -244,7 +252,29 @@ def kkt(prog: Program, rep, sc) -> None:
     rets = returns_of(s)
     ok_guard = bool(lp.orelse) and always_leaves(lp.orelse) and isinstance(lp.orelse[-1], ast.Raise)
     breaks = [q for q in fs.order if isinstance(q.stmt, ast.Break) and q.loops and q.loops[-1] is lp]
-    ok_break = len(breaks) == 1 and any(f[0] == "truthy" and f[1].endswith(".all()") and "== 0" in f[1] and "np.frexp(np.sqrt(" in f[1] for f in breaks[0].facts)
+    ok_break = False
+    if len(breaks) == 1:
+        def _canon(t):
+            try:
+                return U(unitem(ast.parse(t, mode="eval").body))
+            except SyntaxError:
+                return t
+        for f in breaks[0].facts:
+            t = _canon(f[1])
+            if "np.frexp(np.sqrt(" not in t:
+                continue
+            try:
+                e = ast.parse(t, mode="eval").body
+            except SyntaxError:
+                continue
+            # (W == 0).all() is true  /  W.any() is false  /  np.all(W == 0)  /  not np.any(W)
+            if f[0] == "truthy" and isinstance(e, ast.Call) and ((isinstance(e.func, ast.Attribute) and e.func.attr == "all" and not e.args and (w_ := e.func.value) is not None) or
+                                                                (np_call(e, "all") and len(e.args) == 1 and (w_ := e.args[0]) is not None)):
+                at = atoms_of(w_, True)
+                ok_break = ok_break or (len(at) == 1 and at[0][0] == "==" and at[0][2] in ("0", "0.0") and is_frexp_weight(ast.parse(at[0][1], mode="eval").body) is not None)
+            if f[0] == "falsy" and isinstance(e, ast.Call) and ((isinstance(e.func, ast.Attribute) and e.func.attr == "any" and not e.args and (w_ := e.func.value) is not None) or
+                                                               (np_call(e, "any") and len(e.args) == 1 and (w_ := e.args[0]) is not None)):
+                ok_break = ok_break or is_frexp_weight(w_) is not None
     rep.check(ok_guard and ok_break and len(rets) == 1 and not fs.at(rets[0]).loops, "equilibration-exit-guard", s.qualname, "for ... else: raise",
               "scale_symmetric returns only after the break taken when (Rsca == 0).all(); exhausting the iterations raises", s.loc(lp))
     # column sums, zero guard, sqrt, Rsca
@@ -253,14 +283,32 @@ def kkt(prog: Program, rep, sc) -> None:
         st = q.stmt
         if isinstance(st, ast.Assign) and len(st.targets) == 1 and isinstance(st.targets[0], ast.Name) and lp in q.loops:
             val = st.value
+            if isinstance(val, ast.BinOp) and isinstance(val.right, ast.Name):
+                # `(_, e) = np.frexp(R)` / `e = np.frexp(R)[1]` followed by `Rsca = 1 - e`
+                for d in fs.order:
+                    if d.index < q.index and d.loops == q.loops and isinstance(d.stmt, ast.Assign) and len(d.stmt.targets) == 1:
+                        t = d.stmt.targets[0]
+                        if isinstance(t, ast.Tuple) and [U(e_) for e_ in t.elts].count(val.right.id) == 1 and isinstance(d.stmt.value, ast.Call):
+                            k = [U(e_) for e_ in t.elts].index(val.right.id)
+                            val = ast.BinOp(left=val.left, op=val.op, right=ast.Subscript(value=d.stmt.value, slice=ast.Constant(value=k), ctx=ast.Load()))
+                            break
+                        if isinstance(t, ast.Name) and t.id == val.right.id:
+                            val = ast.BinOp(left=val.left, op=val.op, right=d.stmt.value)
+                            break
             x = is_frexp_weight(val)
             if x is not None:
                 rsca = (st.targets[0].id, x, q)
     if rsca is None:
         raise AnalysisError("scale_symmetric: no `Rsca = 1 - frexp(..)[1]` found")
     rname, rarg, rq = rsca
+    # plain aliases of the column-sum array inside the loop (`R = sums` after an inlined helper)
+    ralias = {rarg}
+    for _ in range(4):
+        for q in fs.order:
+            if isinstance(q.stmt, ast.Assign) and len(q.stmt.targets) == 1 and U(q.stmt.targets[0]) in ralias and isinstance(q.stmt.value, ast.Name) and lp in q.loops:
+                ralias.add(q.stmt.value.id)
     # R accumulation
-    accs = [q for q in fs.order if isinstance(q.stmt, ast.AugAssign) and isinstance(q.stmt.target, ast.Subscript) and U(q.stmt.target.value) == rarg and lp in q.loops]
+    accs = [q for q in fs.order if isinstance(q.stmt, ast.AugAssign) and isinstance(q.stmt.target, ast.Subscript) and U(q.stmt.target.value) in ralias and lp in q.loops]
     ok_acc = len(accs) == 1 and isinstance(accs[0].stmt.op, ast.Add)
     col_idx = data_name = None
     if ok_acc:
@@ -268,18 +316,19 @@ def kkt(prog: Program, rep, sc) -> None:
         col_idx = U(fs.resolved(a, a.target.slice))
         data_name = U(a.value)
     rep.check(ok_acc and col_idx is not None and ".col[" in col_idx, "equilibration-column-sums", s.qualname, short(accs[0].stmt) if accs else "", "R[col] accumulates the entries of column col", s.loc())
-    sq = [q for q in fs.order if isinstance(q.stmt, ast.Assign) and U(q.stmt.targets[0]) == rarg and np_call(q.stmt.value, "sqrt") and lp in q.loops]
+    sq = [q for q in fs.order if isinstance(q.stmt, ast.Assign) and U(q.stmt.targets[0]) in ralias and np_call(q.stmt.value, "sqrt") and lp in q.loops]
     rep.check(len(sq) == 1 and sq[0].index < rq.index and sq[0].index > (accs[0].index if accs else 0), "equilibration-column-sums", s.qualname, "R = np.sqrt(R)",
               "Rsca is computed from the square root of the column sums", s.loc())
     # zero guard
-    guards = [q for q in fs.order if isinstance(q.stmt, ast.Assign) and isinstance(q.stmt.targets[0], ast.Subscript) and U(q.stmt.targets[0].value) == rarg and lp in q.loops]
+    guards = [q for q in fs.order if isinstance(q.stmt, ast.Assign) and isinstance(q.stmt.targets[0], ast.Subscript) and U(q.stmt.targets[0].value) in ralias and lp in q.loops]
     for gq in guards:
         at = atoms_of(gq.stmt.targets[0].slice, True)
-        exact = len(at) == 1 and ((at[0][0] == "==" and at[0][2] in ("0", "0.0") and at[0][1] == rarg) or (at[0][0] == "<=" and at[0][2] in ("0", "0.0") and at[0][1] == rarg))
+        exact = len(at) == 1 and ((at[0][0] == "==" and at[0][2] in ("0", "0.0") and at[0][1] in ralias) or (at[0][0] == "<=" and at[0][2] in ("0", "0.0") and at[0][1] in ralias))
         rep.check(exact and const_value(gq.stmt.value) == 1, "equilibration-zero-columns", s.qualname, short(gq.stmt),
                   "only exactly-zero columns are treated as empty (a positive threshold would leave small non-zero columns unscaled)", s.loc(gq.stmt))
     # dtype of R
-    rdefs = [q for q in fs.order if isinstance(q.stmt, ast.Assign) and U(q.stmt.targets[0]) == rarg and lp in q.loops and not np_call(q.stmt.value, "sqrt")]
+    rdefs = [q for q in fs.order if isinstance(q.stmt, ast.Assign) and U(q.stmt.targets[0]) in ralias and lp in q.loops and not np_call(q.stmt.value, "sqrt")
+             and not isinstance(q.stmt.value, ast.Name)]
     dt = dtype_of(s, fs, rdefs[0].stmt, rdefs[0].stmt.value) if rdefs else "unknown"
     rep.check(dt == "float", "magnitudes-are-float", s.qualname, short(rdefs[0].stmt) if rdefs else rarg,
               f"the column-sum accumulator is certainly float-kinded (found {dt})", s.loc(rdefs[0].stmt) if rdefs else s.loc())
